@@ -305,5 +305,19 @@ func round2(f float64) float64 { return float64(int64(f*100+0.5)) / 100 }
 // code under verification) and exits with status 2.
 func Fatalf(format string, a ...any) {
 	fmt.Fprintf(os.Stderr, "MACHINERY-ERROR: "+format+"\n", a...)
+	Cleanup()
 	os.Exit(2)
+}
+
+var atExit []string
+
+// RemoveAtExit registers a scratch file that Finish and Fatalf delete before the process exits.
+func RemoveAtExit(path string) { atExit = append(atExit, path) }
+
+// Cleanup deletes the registered scratch files.
+func Cleanup() {
+	for _, p := range atExit {
+		os.RemoveAll(p)
+	}
+	atExit = nil
 }
